@@ -6,7 +6,8 @@
 // payloads allowed); the harness tampers with that record stream as listed in `wire=` (see
 // lean/BfeVerif/C42/Driver.lean for the frame language), feeds the result followed by EOF to the
 // real server Conn and calls Conn.Read until it returns an error.
-// Result: `d=<bytes delivered> e=<error class> q=<records the receiving half accepted>`.
+// Result: `d=<bytes delivered> e=<first error> q=<records the receiving half accepted> a=<bytes delivered by four
+// further Reads after that error> r=<their errors>`.
 package main
 
 import (
@@ -483,14 +484,24 @@ func exec(op string) string {
 		if rerr != nil {
 			e = errClass(rerr)
 		}
-		// the error must be sticky (noprogress is the one non-sticky outcome): a further Read must not deliver
+		// keep reading after the first error (also after io.EOF): nothing more may be delivered and every
+		// further Read must return the same error.  io.ErrNoProgress is the one non-sticky outcome by
+		// design (the next Read simply goes on), so no follow-up reads there.
+		after, later := []byte(nil), "-"
 		if rerr != nil && rerr != io.ErrNoProgress {
-			n, err2 := p.srv.Read(buf)
-			if n != 0 || err2 == nil {
-				e += "+resumed"
+			var ls []string
+			for i := 0; i < 4; i++ {
+				n, err2 := p.srv.Read(buf)
+				after = append(after, buf[:n]...)
+				if err2 == nil {
+					ls = append(ls, "none")
+				} else {
+					ls = append(ls, errClass(err2))
+				}
 			}
+			later = strings.Join(ls, ",")
 		}
-		return fmt.Sprintf("d=%s e=%s q=%d", vh.Hex(got), e, p.srv.VerifC42InSeq()-seq0)
+		return fmt.Sprintf("d=%s e=%s q=%d a=%s r=%s", vh.Hex(got), e, p.srv.VerifC42InSeq()-seq0, vh.Hex(after), later)
 	})
 }
 
